@@ -13,7 +13,9 @@ import (
 // after a rejected Set / SetNext is observed.
 func init() {
 	// enumapi <bits 0|1> <op>,<op>,...     op = n:<namehex> (SetNext) | s:<namehex>:<int64> (Set)
-	// -> "ops=<o|e per op> toint=<namehex:value,...sorted by name> tostring=<value:namehex,...sorted by value>"
+	//   | md mo ma (NameMap(): delete / overwrite / add an entry of the RETURNED map) | vd vo va (same, ValueMap())
+	//   | ln lv (overwrite the slice returned by Names() / Values())
+	// -> "ops=<o|e|r per op> " + enumViews
 	handlers["enumapi"] = func(t []string) string {
 		var e *yang.EnumType
 		if t[0] == "1" {
@@ -26,6 +28,10 @@ func init() {
 			for _, op := range strings.Split(t[1], ",") {
 				f := strings.Split(op, ":")
 				var err error
+				if len(f) == 1 && mutateOp(e, f[0]) {
+					verdicts.WriteByte('r')
+					continue
+				}
 				switch {
 				case f[0] == "n" && len(f) == 2:
 					err = e.SetNext(string(unhex(f[1])))
@@ -45,36 +51,205 @@ func init() {
 				}
 			}
 		}
-		nm := e.NameMap()
-		var names []string
-		for n := range nm {
-			names = append(names, n)
-		}
-		sort.Strings(names)
-		var a []string
-		for _, n := range names {
-			a = append(a, fmt.Sprintf("%s:%d", enhex([]byte(n)), nm[n]))
-		}
-		vm := e.ValueMap()
-		var vals []int64
-		for v := range vm {
-			vals = append(vals, v)
-		}
-		sort.Slice(vals, func(i, j int) bool { return vals[i] < vals[j] })
-		var c []string
-		for _, v := range vals {
-			c = append(c, fmt.Sprintf("%d:%s", v, enhex([]byte(vm[v]))))
-		}
-		j := func(x []string) string {
-			if len(x) == 0 {
-				return "-"
-			}
-			return strings.Join(x, ",")
-		}
 		vs := verdicts.String()
 		if vs == "" {
 			vs = "-"
 		}
-		return "ops=" + vs + " toint=" + j(a) + " tostring=" + j(c)
+		return "ops=" + vs + " " + enumViews(e)
 	}
+
+	// enummod <bits 0|1> <name:valuehex|~:pre:post,...>
+	// A real module: typedef t { type enumeration|bits { members } } used by two leaves.  pre/post are substatement
+	// codes written before/after the value|position statement of the member ("-" = none):
+	//   c d o = status current|deprecated|obsolete, D = description, r = reference, f = if-feature.
+	// The tables obtained through the first leaf (NameMap, ValueMap, Names, Values) are scrambled by the caller
+	// before the type is observed through the second leaf: returned containers are the caller's.
+	handlers["enummod"] = func(t []string) string {
+		bits := t[0] == "1"
+		var b strings.Builder
+		b.WriteString("module m { yang-version \"1.1\"; namespace \"urn:m\"; prefix m; feature ft; typedef t { type ")
+		kw, vk := "enum", "value"
+		if bits {
+			kw, vk = "bit", "position"
+			b.WriteString("bits {")
+		} else {
+			b.WriteString("enumeration {")
+		}
+		sub := func(codes string) {
+			if codes == "-" {
+				return
+			}
+			for _, c := range codes {
+				switch c {
+				case 'c':
+					b.WriteString(" status current;")
+				case 'd':
+					b.WriteString(" status deprecated;")
+				case 'o':
+					b.WriteString(" status obsolete;")
+				case 'D':
+					b.WriteString(" description \"some text\";")
+				case 'r':
+					b.WriteString(" reference \"RFC 7950\";")
+				case 'f':
+					b.WriteString(" if-feature ft;")
+				default:
+					panic("bad substatement code")
+				}
+			}
+		}
+		for _, mem := range strings.Split(t[1], ",") {
+			f := strings.Split(mem, ":")
+			if len(f) != 4 {
+				panic("bad member " + mem)
+			}
+			fmt.Fprintf(&b, " %s %s {", kw, f[0])
+			sub(f[2])
+			if f[1] != "~" {
+				fmt.Fprintf(&b, " %s \"%s\";", vk, string(unhex(f[1])))
+			}
+			sub(f[3])
+			b.WriteString(" }")
+		}
+		b.WriteString(" } } leaf l { type t; } leaf l2 { type t; } }")
+		ms := yang.NewModules()
+		if err := ms.Parse(b.String(), "m.yang"); err != nil {
+			return "parse-error " + strings.ReplaceAll(err.Error(), "\n", " ")
+		}
+		if errs := ms.Process(); len(errs) > 0 {
+			return "err"
+		}
+		e := yang.ToEntry(ms.Modules["m"])
+		l, l2 := e.Dir["l"], e.Dir["l2"]
+		if l == nil || l.Type == nil || l2 == nil || l2.Type == nil {
+			return "no-leaf"
+		}
+		et, et2 := l.Type.Enum, l2.Type.Enum
+		if bits {
+			et, et2 = l.Type.Bit, l2.Type.Bit
+		}
+		if et == nil || et2 == nil {
+			return "no-table"
+		}
+		scramble(et)
+		return "ok " + enumViews(et2)
+	}
+}
+
+// scramble edits every container the EnumType hands out.
+func scramble(e *yang.EnumType) {
+	nm := e.NameMap()
+	for k := range nm {
+		delete(nm, k)
+	}
+	nm["\x01junk"] = 77
+	vm := e.ValueMap()
+	for k := range vm {
+		delete(vm, k)
+	}
+	vm[424242] = "junk"
+	ns := e.Names()
+	for i := range ns {
+		ns[i] = "junk"
+	}
+	vs := e.Values()
+	for i := range vs {
+		vs[i] = 999
+	}
+}
+
+// mutateOp: read a container through the API and edit what was returned.
+func mutateOp(e *yang.EnumType, op string) bool {
+	switch op {
+	case "md", "mo", "ma":
+		m := e.NameMap()
+		var ks []string
+		for k := range m {
+			ks = append(ks, k)
+		}
+		sort.Strings(ks)
+		switch {
+		case op == "ma":
+			m["\x01junk"] = 77
+		case len(ks) == 0:
+		case op == "md":
+			delete(m, ks[0])
+		default:
+			m[ks[0]] += 1000
+		}
+	case "vd", "vo", "va":
+		m := e.ValueMap()
+		var ks []int64
+		for k := range m {
+			ks = append(ks, k)
+		}
+		sort.Slice(ks, func(i, j int) bool { return ks[i] < ks[j] })
+		switch {
+		case op == "va":
+			m[424242] = "junk"
+		case len(ks) == 0:
+		case op == "vd":
+			delete(m, ks[0])
+		default:
+			m[ks[0]] += "x"
+		}
+	case "ln":
+		s := e.Names()
+		for i := range s {
+			s[i] = "junk"
+		}
+	case "lv":
+		s := e.Values()
+		for i := range s {
+			s[i] = 999
+		}
+	default:
+		return false
+	}
+	return true
+}
+
+// enumViews shows an EnumType through every read accessor of the API:
+// toint (NameMap, sorted), tostring (ValueMap, sorted), names (Names() with Value and IsDefined),
+// values (Values() with Name).
+func enumViews(e *yang.EnumType) string {
+	j := func(x []string) string {
+		if len(x) == 0 {
+			return "-"
+		}
+		return strings.Join(x, ",")
+	}
+	nm := e.NameMap()
+	var names []string
+	for n := range nm {
+		names = append(names, n)
+	}
+	sort.Strings(names)
+	var a []string
+	for _, n := range names {
+		a = append(a, fmt.Sprintf("%s:%d", enhex([]byte(n)), nm[n]))
+	}
+	vm := e.ValueMap()
+	var vals []int64
+	for v := range vm {
+		vals = append(vals, v)
+	}
+	sort.Slice(vals, func(i, j int) bool { return vals[i] < vals[j] })
+	var c []string
+	for _, v := range vals {
+		c = append(c, fmt.Sprintf("%d:%s", v, enhex([]byte(vm[v]))))
+	}
+	var ns []string
+	for _, n := range e.Names() {
+		d := "f"
+		if e.IsDefined(n) {
+			d = "t"
+		}
+		ns = append(ns, fmt.Sprintf("%s:%d:%s", enhex([]byte(n)), e.Value(n), d))
+	}
+	var vs []string
+	for _, v := range e.Values() {
+		vs = append(vs, fmt.Sprintf("%d:%s", v, enhex([]byte(e.Name(v)))))
+	}
+	return "toint=" + j(a) + " tostring=" + j(c) + " names=" + j(ns) + " values=" + j(vs)
 }
